@@ -4,9 +4,10 @@
    What is proved: the rows of a frame carry the snapshot taken by the render closure;
    a bar is cancelled by flush only after a frame that already showed it terminal;
    every bar of the heap is in the frame exactly once; removed bars leave for good; and
-   nothing is written after Wait returned.  That the LAST frame is written after every
-   bar became terminal is a liveness statement about the run-time (the final render
-   loop); it is checked on every trace by the c03 monitor, not proved here.
+   nothing is written after Wait returned; in auto refresh mode the container goroutine
+   cannot return before a whole cycle has ended after it saw done (or an error is
+   latched).  That every bar is terminal by then is Wait's own contract (it waits for the
+   bars first); the c03 monitor checks the content of that last frame on every trace.
    History (D9): on the pinned tree a bar whose actor was busy when the container was
    cancelled could run the shutdown frame's render closure before its ctx.Done branch
    and was drawn running in the last frame; /repo "fix: a bar stopped by context
@@ -59,6 +60,16 @@ Theorem C03_removed_bars_absent : forall p a d evs s b sh nrows rmf np err,
 Proof. exact retired_never_flushed. Qed.
 Print Assumptions C03_removed_bars_absent.
 
+(* auto refresh: the container goroutine returns only after a whole cycle has ended since it saw done (the
+   shutdown frame), unless a render error is latched *)
+Theorem C03_shutdown_frame_before_return : forall s s',
+  step s CT_EXIT = Some s' -> auto_mode s = true -> errored s = false -> final_done s = true /\ done_seen s = true.
+Proof.
+  intros s s'. unfold step. destruct (done_seen s && is_idle s && _) eqn:G; [|discriminate]. intros _ A E.
+  apply andb_prop in G as [G1 G]. apply andb_prop in G1 as [D _]. rewrite A, E in G. cbn in G. rewrite orb_false_r in G. auto.
+Qed.
+Print Assumptions C03_shutdown_frame_before_return.
+
 (* non-vacuity: a bar completes, is shown completed twice, the container is done and exits *)
 Example C03_nonvacuous :
   exists s, run (init_cst false true false)
@@ -72,6 +83,12 @@ Example C03_nonvacuous :
      BAR_RENDER 0 2 2 0 false true 1; BAR_OP 0 2 2 0 true false false 2; HM_POP 0 0;
      CT_FLUSHBAR 0 1 1 false false false; CT_FRAME 1 0; OUT [ICuu 1; IRow 0 2 2 true false];
      HM_PUSH 0 false 0 false 1; BAR_EXIT 0 2 2 false;
-     CT_DONE; HM_STATE 1 false 1; HM_END 1; CT_EXIT; FINAL 0 2 true false false] = Some s
-  /\ ct_exited s = true /\ length (outframes s) = 2%nat.
+     CT_DONE;
+     (* auto refresh: the shutdown cycle, rendered by the container goroutine itself for the exited bar *)
+     CT_RENDERBEGIN; HM_SYNC 1 false 1; HM_ITERREQ true 1; CT_RENDERSIZE 80 24;
+     BAR_RENDER 0 2 2 0 false true 2; HM_POP 0 0;
+     CT_FLUSHBAR 0 2 1 false false false; CT_FRAME 1 0; OUT [ICuu 1; IRow 0 2 2 true false];
+     HM_PUSH 0 false 0 false 1;
+     HM_STATE 1 false 1; HM_END 1; CT_EXIT; FINAL 0 2 true false false] = Some s
+  /\ ct_exited s = true /\ length (outframes s) = 3%nat.
 Proof. eexists. vm_compute. repeat split. Qed.
